@@ -68,6 +68,10 @@ def every_question_considered(ctx, P, pre):
     LOOKUPS = ("ipv4_sock", "ipv6_sock", "dns_registry_map", "my_intfs")
     allowed = guard_edges(P, f, lambda atom, outcome, bb: atom[0] == "variant" and outcome == frozenset(["None"]) and
                           any(expr_mentions_field(atom[1], fld, "Zeroconf") for fld in LOOKUPS))
+    # ... or when there is no question at all (`msg.questions().is_empty()`): the loop would not run either
+    allowed |= guard_edges(P, f, lambda atom, outcome, bb: atom[0] == "call" and method(strip_generics(atom[1])) == "is_empty" and outcome is True and
+                           any((x[0] == "call" and name_matches(strip_generics(x[1]), "DnsIncoming::questions")) or
+                               (x[0] == "field" and x[2] == "questions" and (x[3] or "").endswith("DnsIncoming")) for x in walk(atom)))
     reach = f.reachable(0, removed_blocks=[head], removed_edges=allowed)
     early = [f.loc(r) for r in reach if f.term(r)["k"] == "return"]
     ctx.ob(pre + ".every-question-considered", f.name, not early, f.loc(head),
